@@ -792,7 +792,9 @@ def parse_as_ast(
 
     else:
         assert isinstance(ast_source, ast.AST)
-        return lambda_unwrap(ast_source)
+        # The ast belongs to the caller, who may use it again: later processing (type following
+        # of nested lambdas, argument fix-ups) edits nodes in place, so work on a copy.
+        return lambda_unwrap(copy.deepcopy(ast_source))
 
 
 def scan_for_metadata(a: ast.AST, callback: Callable[[ast.arg], None]):
